@@ -534,7 +534,7 @@ func (g *G) access(t *Type) (string, bool) {
 	for _, v := range g.visible() {
 		if v.T.K == KPtr && !v.T.S.nilable(v) {
 			for _, f := range v.T.S.Fields {
-				if f.T.Eq(t) {
+				if f.T.Eq(t) && t.K != KPtr { // a reference-typed field may be nil: not a source of a plain variable's value
 					opts = append(opts, g.ref(v)+"."+f.Name)
 				}
 			}
@@ -733,7 +733,7 @@ func (g *G) intEx(t *Type, d int) ex {
 			if c.cnst {
 				return g.join(l, op, ex{s: fmt.Sprint(g.r.Intn(9)), p: 6, cnst: true})
 			}
-			return g.join(l, op, ex{s: "(" + c.s + " & 7)", p: 6})
+			return g.join(l, op, ex{s: "((" + c.s + ") & 7)", p: 6})
 		}
 		r := g.intEx(t, d-1)
 		if l.cnst && r.cnst {
